@@ -24,6 +24,7 @@ RULE = (
     "inside a procedure iff it was; without deletions its unwind state is unchanged; procedures map one to one and "
     "in order; code inserted inside a procedure (its very end included) is covered, starts with the state of the "
     "insertion point and keeps its own directives"
+    "; balanced-CFI patches whose directives stand on empty blocks of the patch (behind a final jump, in front of a trailing label, between leading labels); a cold block with the procedure's .cfi_endproc between data, deleted with and without retarget_to_proxy; the first block of a procedure deleted whole; a multiset accounting of ordinary directives (after = before minus those attached behind deleted instructions) whenever no patch brings directives"
 )
 ASSUMPTIONS = [
     "unwind states are compared as canonical text of the evaluator's ProcedureState (return column, personality, LSDA, current and initial row, remember stack)",
